@@ -297,3 +297,56 @@ CONTRACTS["timeline.TimelineTex.add_header_colors"] = {
                          "utils.hex2html": {"inline": True}},
     "ensures": [("five_blocks", "len(doc) == %d" % _line)] + _exp,
 }
+
+
+# ---------------------------------------------------------------------------------------------------- Timeline.parse_items
+# C07 "the datum's time exactly as supplied, including its time of day" (D9 was: datetimes truncated to midnight).  Harness:
+# one datum with an explicit width and text; the time is (a) a datetime: kept to the microsecond, (b) a number: kept as it is.
+def _one_datum(kind):
+    return ["list", {"$dict": {"time": kind, "width": "real", "text": lambda E, P, name: Str(["label"])}}]
+
+
+_PARSE_SELF = {"$obj": ("timeline", "Timeline"),
+               "fields": {"options": {"$dict": {"textFn": "none",
+                                                "latex": {"$dict": {"fontsize": lambda E, P, name: Str(["11pt"]), "preamble": lambda E, P, name: Str([""]),
+                                                                    "latexmkOptions": "none"}}}}}}
+for _kind, _same in (("dt", "us(result[0].time) == us(dicts[0]['time'])"), ("real", "result[0].time == dicts[0]['time']")):
+    CONTRACTS["timeline.Timeline.parse_items@%s" % ("datetime" if _kind == "dt" else "number")] = {
+        "props": ["C07", "C11"], "inline": True, "func_alias": "timeline.Timeline.parse_items", "py_classes": ["Item"],
+        "params": {"self": _PARSE_SELF, "dicts": _one_datum(_kind), "output_mode": lambda E, P, name: Str(["svg"])},
+        "ensures": [("one_item_per_datum", "len(result) == 1"),
+                    ("time_exactly_as_supplied", _same),
+                    ("explicit_width_kept", "result[0].width == dicts[0]['width']"),
+                    ("payload_is_the_datum", "result[0].data is dicts[0]")],
+    }
+
+
+# ---------------------------------------------------------------------------------------------------- Timeline.init_axis
+# C07 "maps the axis domain onto the full axis length": with an explicit numeric domain the scale (a real LinearScale in an
+# arbitrary earlier state) sends the two domain ends to 0 and to the inner length ALONG the axis; probes are made by the epilogue.
+def _init_axis_setup(direction):
+    def setup(E, P, env):
+        from contracts.scale import new_linear_scale
+        outs = []
+        for (p, sc, g) in new_linear_scale(E, P, "ax", False):
+            d0, d1 = E.sym("dom0", "real"), E.sym("dom1", "real")
+            opts = p.new("dict", {"domain": p.new("list", (d0, d1)), "scale": sc, "direction": Str([direction]),
+                                  "initialWidth": E.sym("iw", "real"), "initialHeight": E.sym("ih", "real"),
+                                  "margin": p.new("dict", {k: E.sym("m_" + k, "real") for k in ("left", "right", "top", "bottom")})})
+            obj = p.new("obj", {"options": opts, "direction": Str([direction])}, cls=("timeline", "Timeline"))
+            outs.append((p, dict(env, self=obj, d0=d0, d1=d1)))
+        return outs
+    return setup
+
+
+for _d in ("up", "down", "left", "right"):
+    _len = _IH if _d in ("left", "right") else _IW
+    CONTRACTS["timeline.Timeline.init_axis@%s_explicit_domain" % _d] = {
+        "props": ["C07"], "inline": True, "func_alias": "timeline.Timeline.init_axis",
+        "params": {"data": "none"}, "setup": _init_axis_setup(_d),
+        "requires": ["d0 != d1"],
+        "epilogue": "_p0 = self.options['scale'](d0)\n_p1 = self.options['scale'](d1)\n_dm = self.options['scale'].domain()\n",
+        "ensures": [("domain_is_the_one_given_not_niced", "_dm[0] == d0 and _dm[1] == d1"),
+                    ("domain_start_maps_to_the_axis_origin", "_p0 == 0"),
+                    ("domain_end_maps_to_the_full_axis_length", "_p1 == " + _len)],
+    }
